@@ -46,13 +46,13 @@ func GeneratedClientModel(variant int) (model.ClientDBModel, map[string]reflect.
 	switch variant {
 	case 0:
 		cm, err = ks0.FullDatabaseModel()
-		ms = []model.Model{&ks0.Root{}, &ks0.Child{}, &ks0.Item{}, &ks0.Grand{}, &ks0.Plain{}}
+		ms = []model.Model{&ks0.Root{}, &ks0.Child{}, &ks0.Item{}, &ks0.Grand{}, &ks0.Plain{}, &ks0.Flat{}}
 	case 1:
 		cm, err = ks1.FullDatabaseModel()
-		ms = []model.Model{&ks1.Root{}, &ks1.Child{}, &ks1.Item{}, &ks1.Grand{}, &ks1.Plain{}}
+		ms = []model.Model{&ks1.Root{}, &ks1.Child{}, &ks1.Item{}, &ks1.Grand{}, &ks1.Plain{}, &ks1.Flat{}}
 	default:
 		cm, err = ks2.FullDatabaseModel()
-		ms = []model.Model{&ks2.Root{}, &ks2.Child{}, &ks2.Item{}, &ks2.Grand{}, &ks2.Plain{}}
+		ms = []model.Model{&ks2.Root{}, &ks2.Child{}, &ks2.Item{}, &ks2.Grand{}, &ks2.Plain{}, &ks2.Flat{}}
 	}
 	types := map[string]reflect.Type{}
 	for _, m := range ms {
